@@ -307,3 +307,59 @@ func litKeyValue(info *types.Info, e ast.Expr, fld *types.Var) ast.Expr {
 	}
 	return nil
 }
+
+// elemLoopAt returns the innermost loop around pos (inside body, not crossing literals) in its whole-slice normal
+// form (range or index form, see eng.ElemLoop); nil when there is no loop or it is not a recognised whole-slice loop.
+func elemLoopAt(info *types.Info, body *ast.BlockStmt, pos token.Pos) *eng.ElemLoop {
+	l := eng.LoopOf(body, pos)
+	if l == nil {
+		return nil
+	}
+	el, ok := eng.ElemLoopOf(info, l)
+	if !ok {
+		return nil
+	}
+	return el
+}
+
+// elemLoopsOver returns the whole-slice loops of body (not inside literals) whose slice satisfies base.
+func elemLoopsOver(info *types.Info, body ast.Node, base func(ast.Expr) bool) []*eng.ElemLoop {
+	var out []*eng.ElemLoop
+	eng.InspectNoLit(body, func(n ast.Node) bool {
+		st, ok := n.(ast.Stmt)
+		if !ok {
+			return true
+		}
+		switch st.(type) {
+		case *ast.RangeStmt, *ast.ForStmt:
+			if el, ok := eng.ElemLoopOf(info, st); ok && base(el.Base) {
+				out = append(out, el)
+			}
+		}
+		return true
+	})
+	return out
+}
+
+// isLoopHeadOf: the synthetic node(s) every new iteration of loop passes (range head; for-loop condition / post).
+func isLoopHeadOf(loop ast.Stmt) func(*eng.GNode) bool {
+	return func(n *eng.GNode) bool {
+		if n.Node != nil || n.Block.Stmt != loop {
+			return false
+		}
+		k := n.Block.Kind.String()
+		return k == "RangeLoop" || k == "ForLoop" || k == "ForPost"
+	}
+}
+
+// loopBodyEntryOf: the synthetic entry node of the loop body.
+func loopBodyEntryOf(g *eng.Graph, loop ast.Stmt) *eng.GNode {
+	for _, n := range g.Nodes {
+		if n.Node == nil && n.Block.Stmt == loop {
+			if k := n.Block.Kind.String(); k == "RangeBody" || k == "ForBody" {
+				return n
+			}
+		}
+	}
+	return nil
+}
